@@ -32,6 +32,14 @@ from .extern import BA, BBytes, SStr, SymBytes
 REGISTRY = {}        # qualname -> Contract
 
 
+class _Inline:
+    def __repr__(self):
+        return 'INLINE'
+
+
+INLINE = _Inline()    # returned by a spec that does not cover this argument shape: callers run the body
+
+
 class Contract:
     def __init__(self, qualname, spec=None, post=None, shapes=(), props=(), kind='internal', note='',
                  observe_args=True):
@@ -51,7 +59,15 @@ class Contract:
         a = f.node.args
         names = [p.arg for p in a.posonlyargs + a.args + a.kwonlyargs]
         C = SpecCtx(interp, callsite=True, qualname=self.qualname)
-        return self.spec(C, *[loc[n] for n in names])
+        r = self.spec(C, *[loc[n] for n in names])
+        if r is INLINE:
+            saved = interp.under_verification
+            interp.under_verification = self.qualname
+            try:
+                return interp.call_function(f, args, kwargs)
+            finally:
+                interp.under_verification = saved
+        return r
 
 
 def contract(qualname, **kw):
@@ -67,10 +83,20 @@ def contract(qualname, **kw):
 class SpecCtx:
     """handle given to spec functions"""
 
-    def __init__(self, interp, callsite=False, qualname=''):
+    def __init__(self, interp, callsite=False, qualname='', opts=None):
         self.interp = interp
         self.callsite = callsite
         self.qualname = qualname
+        self._opts = opts
+
+    @property
+    def lsb0(self):
+        o = self.interp.get_module('bitstring').ns['options']
+        return bool(o.attrs.get('_lsb0'))
+
+    def option(self, name):
+        o = self.interp.get_module('bitstring').ns['options']
+        return o.attrs.get('_' + name)
 
     def requires(self, cond, what=''):
         if cond is True:
@@ -85,6 +111,8 @@ class SpecCtx:
             c.assume(cond)
 
     def throw(self, clsname, *args):
+        if isinstance(clsname, str) and clsname not in self.interp.builtins:
+            clsname = self.interp.get_module('bitstring').ns[clsname]
         self.interp.throw(clsname, *args)
 
     def new(self, clsname_or_cls, **attrs):
@@ -197,6 +225,27 @@ def same(x, y, label, goals, seen=None):
         if x.cls is not y.cls:
             goals.add(label + ':class', False)
             return
+        # abstraction functions: a BitStore is its logical content, a bitstring is
+        # (class, logical content, pos); representation flags are compared only where a
+        # contract observes them explicitly
+        if x.cls.name == 'BitStore':
+            from .spec import store_bits
+            if '_bitarray' not in x.attrs or '_bitarray' not in y.attrs:
+                goals.add(label + ':store-present', '_bitarray' not in x.attrs and '_bitarray' not in y.attrs)
+                return
+            goals.add(label + ':wf', store_wf(x))
+            same(store_bits(x), store_bits(y), label + ':bits', goals, seen)
+            return
+        if any(k.name == 'Bits' for k in x.cls.mro):
+            if '_bitstore' not in x.attrs or '_bitstore' not in y.attrs:
+                goals.add(label + ':store-present', '_bitstore' not in x.attrs and '_bitstore' not in y.attrs)
+                return
+            same(x.attrs['_bitstore'], y.attrs['_bitstore'], label, goals, seen)
+            if ('_pos' in x.attrs) != ('_pos' in y.attrs):
+                goals.add(label + ':pos-present', False)
+            elif '_pos' in x.attrs:
+                same(x.attrs['_pos'], y.attrs['_pos'], label + ':pos', goals, seen)
+            return
         keys = sorted(set(x.attrs) | set(y.attrs))
         for k in keys:
             if k not in x.attrs or k not in y.attrs:
@@ -216,6 +265,12 @@ def same(x, y, label, goals, seen=None):
         bx = x if isinstance(x, BBytes) else extern.as_bbytes(None, x)
         by = y if isinstance(y, BBytes) else extern.as_bbytes(None, y)
         goals.add(label, _skolem_view_eq(BA(bx.nbytes * 8, bx.bit), BA(by.nbytes * 8, by.bit), label))
+        return
+    if isinstance(x, extern.PStr) and isinstance(y, extern.PStr):
+        goals.add(label, _skolem_view_eq(x.view, y.view, label))
+        return
+    if isinstance(x, SymBytes) and isinstance(y, SymBytes):
+        goals.add(label, _skolem_view_eq(BA(x.nbytes * 8, x.bit), BA(y.nbytes * 8, y.bit), label))
         return
     if isinstance(x, SStr) and isinstance(y, SStr):
         if x.kind != y.kind:
@@ -283,6 +338,15 @@ def same(x, y, label, goals, seen=None):
         goals.add(label, False)
 
 
+def store_wf(st):
+    """representation invariant of a BitStore: modified_length is None or within the raw buffer"""
+    ml = st.attrs.get('modified_length')
+    if ml is None:
+        return True
+    ba = st.attrs['_bitarray']
+    return sym.land(ml >= 0, ml <= ba.n)
+
+
 def _str_to_sstr(kind, s):
     per = {'bin': 1, 'oct': 3, 'hex': 4}[kind]
     alphabet = {'bin': '01', 'oct': '01234567', 'hex': '0123456789abcdef'}[kind]
@@ -304,7 +368,8 @@ class Shape:
     real objects from a concretised counter-model (for replay).  ``opts`` are option values
     in force (lsb0, bytealigned, mxfp_overflow)."""
 
-    def __init__(self, name, build, real=None, opts=None, loop_bound=None, timeout_ms=None, note=''):
+    def __init__(self, name, build, real=None, opts=None, loop_bound=None, timeout_ms=None, note='', props=None):
+        self.props = set(props) if props is not None else None
         self.name = name
         self.build = build
         self.real = real
@@ -376,7 +441,8 @@ def check_shape(interp, c: Contract, shape: Shape, timeout_ms=20000, max_paths=4
     set_options(interp, shape.opts)
     clauses = {}
     stats = dict(paths=0, infeasible=0, unsupported=[], bounded=0, solver_calls=0, cover=0, side_fail=[],
-                 unknown_feasibility=0, errors=[])
+                 unknown_feasibility=0, errors=[], used_contracts=[])
+    interp.used_contracts = set()
     work = [[]]
     lb = shape.loop_bound if shape.loop_bound is not None else loop_bound
     tmo = shape.timeout_ms or timeout_ms
@@ -409,6 +475,8 @@ def check_shape(interp, c: Contract, shape: Shape, timeout_ms=20000, max_paths=4
         stats['unknown_feasibility'] += ctx.unknown_feasibility
         work.extend(ctx.pending)
     stats['wall_s'] = round(time.time() - t0, 3)
+    stats['used_contracts'] = sorted(interp.used_contracts)
+    interp.used_contracts = None
     set_options(interp, {})
     return clauses, stats
 
@@ -465,6 +533,13 @@ def _one_path(interp, c, fn, shape, ctx, clauses, stats):
             goals.items.append(g)
         else:
             same(out1.value, out2.value, 'result', goals)
+            # aliasing: for mutable classes and for streams (which carry a position) "returns self" vs
+            # "returns a new object" is observable
+            v1, v2 = out1.value, out2.value
+            if isinstance(v1, Obj) and isinstance(v2, Obj) and any(k.name in ('BitArray', 'ConstBitStream') for k in v1.cls.mro):
+                i1 = next((i for i, a in enumerate(args1) if a is v1), -1)
+                i2 = next((i for i, a in enumerate(args2) if a is v2), -1)
+                goals.add('result:identity', i1 == i2)
         if c.observe_args:
             for (l1, a1), (l2, a2) in zip(_observe_args(args1, kw1), _observe_args(args2, kw2)):
                 same(a1, a2, 'state:' + l1, goals)
@@ -489,7 +564,7 @@ def _one_path(interp, c, fn, shape, ctx, clauses, stats):
     for item in goals.items:
         label, g = item[0], item[1]
         detail = item[2] if len(item) > 2 else ''
-        clause = label.split('[')[0].split('.')[0] if label.startswith('state:') else label.split('[')[0].split('.')[0]
+        clause = ':'.join(label.replace('[', '.').split('.')[0].split(':')[:2])
         cr = clauses.setdefault(clause, ClauseResult())
         cr.paths += 1
         if g is None:
